@@ -279,6 +279,16 @@ class TrendReproducesPolynomial(Contract):
                 e, n = _distinct_points(rng, nrng, max(3 * ncoef, 10), 2.0, -1.0)
                 q = (nrng.uniform(-1.5, 1.5, 7), nrng.uniform(-1.5, 1.5, 7))
                 yield (degree, coefs, (e, n), q), {}
+        # the coordinate scales of the quantifier (1e-2 .. 1e6): monomial columns then differ by up to 16 orders of
+        # magnitude; coefficient (i, j) scaled by scale**-(i+j) so that every term matters
+        for scale in (1e-2, 1e-2, 1e3, 1e6):
+            for degree in ((4, 3) if scale == 1e-2 else (rng.randint(2, 4),)):
+                ncoef = (degree + 1) * (degree + 2) // 2
+                combos = [(i, j) for d in range(degree + 1) for (i, j) in [(d - j, j) for j in range(d + 1)]]
+                coefs = np.array([c * scale ** -(i + j) for c, (i, j) in zip(nrng.uniform(0.5, 2, ncoef) * nrng.choice([-1, 1], ncoef), combos)])
+                e, n = nrng.uniform(-scale, scale, 60), nrng.uniform(-scale, scale, 60)
+                q = (nrng.uniform(-1.5 * scale, 1.5 * scale, 9), nrng.uniform(-1.5 * scale, 1.5 * scale, 9))
+                yield (degree, coefs, (e, n), q), {}
 
     def ensures(self, a, r):
         pred, truth = unwrap(r[0]), unwrap(r[1])
